@@ -164,6 +164,19 @@ def _construct(cfg, mods, env, log, nodes, edges):
                 log.moved[_i] = log.moved.get(_i, 0) - 1
                 return it
             st.put, st.get = put, get
+            ocp, ocg = st.reserve_put_cancel, st.reserve_get_cancel
+
+            def cput(ev, _o=ocp, _i=i, _st=st):
+                # implementation-side observation (OBS lines are never compared with the model): a GRANTED request is withdrawn
+                if any(ev is x for x in _st.reservations_put):
+                    log.lines.append("OBS %d %d cputg 0 0" % (env.now, _i))
+                return _o(ev)
+
+            def cget(ev, _o=ocg, _i=i, _st=st):
+                if any(ev is x for x in _st.reservations_get):
+                    log.lines.append("OBS %d %d cgetg 0 0" % (env.now, _i))
+                return _o(ev)
+            st.reserve_put_cancel, st.reserve_get_cancel = cput, cget
     for (ei, s, d) in cfg["connects"]:
         edges[ei].connect(nodes[s], nodes[d])
 
